@@ -22,6 +22,7 @@ type c16RunPlan struct {
 	N         int    `json:"n"`
 	FailEvery int    `json:"fail_every"`
 	SetupFail bool   `json:"setup_fail"`
+	SetupKind int    `json:"setup_kind"` // behaviour that makes the setup fail
 	Tick      int    `json:"tick"`
 }
 
@@ -79,8 +80,9 @@ func init() {
 					if !same {
 						rp.Scenario = c16Names[r.IntN(len(c16Names))]
 					}
-					if r.IntN(8) == 0 {
+					if r.IntN(6) == 0 {
 						rp.SetupFail = true
+						rp.SetupKind = pick(r, engine.BFail, engine.BFailNow, engine.BError, engine.BRequire, engine.BPanicString, engine.BPanicError, engine.BNilMap, engine.BPanicInt, engine.BNilDeref)
 					}
 					p.Runs = append(p.Runs, rp)
 				}
@@ -117,7 +119,7 @@ func c16Runs(c *core.Case, o *core.Outcome) {
 		open := func() { once.Do(func() { close(gate) }) }
 		scenario := func(t *f1testing.T) f1testing.RunFn {
 			if rp.SetupFail {
-				t.FailNow()
+				engine.Behave(t, rp.SetupKind)
 			}
 			return func(t *f1testing.T) {
 				n := started.Add(1)
@@ -157,7 +159,7 @@ func c16Runs(c *core.Case, o *core.Outcome) {
 			return
 		}
 		inst = r.Metrics
-		desc := fmt.Sprintf("%s run %d/%d scenario=%q mode=%s setupFail=%v labels=%v", p.Desc, ri+1, len(p.Runs), rp.Scenario, rp.Mode, rp.SetupFail, p.Labels)
+		desc := fmt.Sprintf("%s run %d/%d scenario=%q mode=%s setupFail=%v(%s) labels=%v", p.Desc, ri+1, len(p.Runs), rp.Scenario, rp.Mode, rp.SetupFail, engine.BehaviourNames[rp.SetupKind], p.Labels)
 		su, fa, dr := resultCounts(r)
 		if int64(su+fa) != started.Load() || int64(fa) != failedPlanned.Load() {
 			o.Violate("result:"+desc, "result %d/%d/%d does not match ground truth started=%d failed=%d (%s)", su, fa, dr, started.Load(), failedPlanned.Load(), desc)
